@@ -1,6 +1,137 @@
-//! Hand-written dispatch entries (functions the translator does not cover, stateful objects, generic entry points).
+//! Hand-written dispatch entries (functions the translator's auto-dispatch does not cover:
+//! generic entry points, stateful objects).  Same ids as lean/Statrs/Model/Dispatch.lean.
 use crate::proto::*;
+use statrs::statistics::{Data, Distribution, Max, Min, Statistics};
 
-pub fn dispatch(_id: &str, _a: &[Arg]) -> Option<String> {
-    None
+fn stat(id: &str, a: &[Arg]) -> Option<String> {
+    let rest = id.strip_prefix("IterStatistics::")?;
+    let (name, how) = match rest.split_once('@') {
+        Some((n, h)) => (n, h),
+        None => (rest, "slice"),
+    };
+    let v = a.get(0)?.fl();
+    macro_rules! by {
+        ($m:ident) => {
+            match how {
+                "vec" => Statistics::$m(v.clone()),
+                "iter" => Statistics::$m(v.clone().into_iter()),
+                _ => Statistics::$m(v.as_slice()),
+            }
+        };
+    }
+    let r = match name {
+        "min" => by!(min),
+        "max" => by!(max),
+        "abs_min" => by!(abs_min),
+        "abs_max" => by!(abs_max),
+        "mean" => by!(mean),
+        "geometric_mean" => by!(geometric_mean),
+        "harmonic_mean" => by!(harmonic_mean),
+        "variance" => by!(variance),
+        "std_dev" => by!(std_dev),
+        "population_variance" => by!(population_variance),
+        "population_std_dev" => by!(population_std_dev),
+        "quadratic_mean" => by!(quadratic_mean),
+        "covariance" => v.as_slice().covariance(a.get(1)?.fl().as_slice()),
+        "population_covariance" => v.as_slice().population_covariance(a.get(1)?.fl().as_slice()),
+        _ => return None,
+    };
+    Some(rep(&r))
+}
+
+pub fn dispatch(id: &str, a: &[Arg]) -> Option<String> {
+    if id.starts_with("IterStatistics::") {
+        return stat(id, a);
+    }
+    match id {
+        "Data::min" => Some(rep(&Data::new(a[0].fl()).min())),
+        "Data::max" => Some(rep(&Data::new(a[0].fl()).max())),
+        "Data::mean" => Some(rep(&Data::new(a[0].fl()).mean())),
+        "Data::variance" => Some(rep(&Data::new(a[0].fl()).variance())),
+        "crate::function::beta::inv_beta_reg" => Some(rep(&statrs::function::beta::inv_beta_reg(a[0].f(), a[1].f(), a[2].f()))),
+        _ => None,
+    }
+}
+
+/// request generators for the hand suites: `harness gen-hand <suite> <tier> <seed>`
+pub fn gen(suite: &str, tier: &str, seed: u64) {
+    use crate::rng::Sm;
+    let mut r = Sm::new(seed ^ 0x68616e64);
+    let thorough = tier == "thorough";
+    let emit = |id: &str, a: &[Arg]| println!("{} {}", id, a.iter().map(|x| x.render()).collect::<Vec<_>>().join(" "));
+    match suite {
+        "stats" => {
+            let names = ["min", "max", "abs_min", "abs_max", "mean", "geometric_mean", "harmonic_mean", "variance", "std_dev", "population_variance", "population_std_dev", "quadratic_mean"];
+            let lattice = [f64::NAN, f64::INFINITY, f64::NEG_INFINITY, 0.0, -0.0, 1.0, -2.5];
+            // exhaustive vectors of length 0..=L over the 7-value lattice
+            let maxlen = if thorough { 5 } else { 3 };
+            let mut vecs: Vec<Vec<f64>> = vec![vec![]];
+            let mut frontier: Vec<Vec<f64>> = vec![vec![]];
+            for _ in 0..maxlen {
+                let mut next = vec![];
+                for v in &frontier {
+                    for x in lattice.iter() {
+                        let mut w = v.clone();
+                        w.push(*x);
+                        next.push(w);
+                    }
+                }
+                vecs.extend(next.iter().cloned());
+                frontier = next;
+            }
+            // seeded random vectors: magnitudes 1e-150..1e150, offsets/spreads up to 1e8
+            let nrand = if thorough { 3000 } else { 300 };
+            for i in 0..nrand {
+                let n = 1 + r.below(if i % 10 == 0 { 2000 } else { 40 }) as usize;
+                let mode = r.below(4);
+                let mag = 10f64.powf(r.range(-150.0, 150.0));
+                let off = r.range(-1.0, 1.0) * 10f64.powf(r.range(0.0, 8.0));
+                let v: Vec<f64> = (0..n)
+                    .map(|_| match mode {
+                        0 => r.range(-1.0, 1.0) * mag,
+                        1 => off + r.range(-1.0, 1.0),
+                        2 => r.log_range(1e-3, 1e3),
+                        _ => (r.below(7) as f64) - 3.0,
+                    })
+                    .collect();
+                vecs.push(v);
+            }
+            for (vi, v) in vecs.iter().enumerate() {
+                for n in names.iter() {
+                    emit(&format!("IterStatistics::{}", n), &[Arg::FL(v.clone())]);
+                    if vi % 7 == 0 {
+                        emit(&format!("IterStatistics::{}@vec", n), &[Arg::FL(v.clone())]);
+                        emit(&format!("IterStatistics::{}@iter", n), &[Arg::FL(v.clone())]);
+                    }
+                }
+                for n in ["min", "max", "mean", "variance"] {
+                    if vi % 5 == 0 {
+                        emit(&format!("Data::{}", n), &[Arg::FL(v.clone())]);
+                    }
+                }
+                // covariance with a partner of equal (mostly) length
+                let mut w: Vec<f64> = v.iter().map(|x| x * 0.5 + r.range(-1.0, 1.0)).collect();
+                if vi % 11 == 0 {
+                    w.push(1.0);
+                }
+                emit("IterStatistics::covariance", &[Arg::FL(v.clone()), Arg::FL(w.clone())]);
+                emit("IterStatistics::population_covariance", &[Arg::FL(v.clone()), Arg::FL(w)]);
+            }
+        }
+        "inv_beta_reg" => {
+            let n = if thorough { 20000 } else { 1500 };
+            for _ in 0..n {
+                let a = r.log_range(0.05, 500.0);
+                let b = r.log_range(0.05, 500.0);
+                let x = match r.below(10) {
+                    0 => 0.0,
+                    1 => 1.0,
+                    2 => 0.5,
+                    _ => r.unit(),
+                };
+                emit("crate::function::beta::inv_beta_reg", &[Arg::F(a), Arg::F(b), Arg::F(x)]);
+            }
+        }
+        _ => {}
+    }
 }
